@@ -39,7 +39,7 @@ def encode(ex, st, pos, kw, node, star, dstar):
         lib.used('A1 (negative): encode with options other than unpicklable=True gives no round-trip guarantee')
         s2 = st.copy(); e = fresh('encoded_lossy', Str); st.assume(E_KIND(e) == 0)
         return [(st, ('val', Val.s(e))), (s2, ('exc', s2.sym_exc(ordinary=True, label='exc_encode')))]
-    lib.used('A1 jsonpickle encode/decode on the faithful domain: decode(encode(v)) is a freshly allocated, structurally equal graph; encode may raise an ordinary exception on unserialisable values')
+    lib.used('A1 jsonpickle encode/decode on the faithful domain (tree-shaped values; shared sub-objects only where no state-carrying object precedes the second reference -- known finding C07-shared-reference-after-object): decode(encode(v)) is a freshly allocated, structurally equal graph; encode may raise an ordinary exception on unserialisable values')
     x = pos[0]; e = fresh('encoded', Str); s2 = st.copy()
     if ex.is_kind(st, x, 'dict'):
         dom, mp = st.dcontents(x)
